@@ -31,7 +31,7 @@ EXPLANATION = ("FeatureDB.interfeatures: the loop body is proved by the fold rul
 TRUSTED = ["T1 incl. the fold rule for the loop body"]
 ASSUMPTIONS = ["helpers.merge_attributes satisfies its C17 contract", "bins.bins satisfies its C12 contract", "children(order_by='start') yields exons ascending (C02/C11)"]
 PRECONDITIONS = ["features carry integer coordinates", "exons carry an ID attribute (create_splice_sites)"]
-FUNCTIONS = ["gffutils.interface:FeatureDB.interfeatures", "gffutils.interface:FeatureDB.create_introns", "gffutils.interface:FeatureDB.create_splice_sites"]
+FUNCTIONS = ["gffutils.helpers:make_query", "gffutils.interface:FeatureDB.interfeatures", "gffutils.interface:FeatureDB.create_introns", "gffutils.interface:FeatureDB.create_splice_sites"]
 
 NOTAB = frozenset("\t\n")
 
